@@ -32,6 +32,7 @@ var checks = map[string]*checkDef{
 			{workload: "C13", variant: "purego", quick: 60000, thorough: 1500000},
 			{workload: "C13C", variant: "instrs", quick: 6000, thorough: 300000},
 			{workload: "C13C", variant: "instrs-purego", quick: 6000, thorough: 300000},
+			{workload: "C13D", variant: "instrs", quick: 1200, thorough: 30000, cold: true},
 			{workload: "C13", variant: "force32bit", thorough: 100000, thoroughOnly: true},
 			{workload: "C13", variant: "noavx2", thorough: 100000, thoroughOnly: true},
 		},
